@@ -82,6 +82,12 @@ def all_units():
         units_div.register(add)
         import units_sqr
         units_sqr.register(add)
+        import units_c07x
+        units_c07x.register(add)
+        import units_c02x
+        units_c02x.register(add)
+        import units_c05x
+        units_c05x.register(add)
         # development aid: additional unit modules (comma separated) can be tried out before they are registered here
         import os, importlib
         for m in filter(None, os.environ.get('VERIF_EXTRA_UNITS', '').split(',')):
